@@ -54,6 +54,7 @@ CASES = {
     'same-name': {'entries': 1, 'alternatives': 2, 'archs': 1, 'negation': False, 'no_version': True, 'ws_style': 5},
     'qualifier-layout': {'entries': 1, 'alternatives': 2, 'archqual': True, 'archqual_ws': True, 'version_kinds': 1, 'ws_styles': 5},
     'substvar': {'entries': 2, 'alternatives': 1, 'substvars': True, 'version_kinds': 1, 'ws_styles': 1},
+    'pre-comma': {'entries': 3, 'alternatives': 1, 'no_version': True, 'pre_comma': True, 'ws_styles': 2},
 }
 FULL = {'sorting': {'entries': 2, 'alternatives': 2, 'version_kinds': 1, 'ws_styles': 1},
         'layout-v': {'entries': 2, 'alternatives': 1, 'archqual': True, 'version_kinds': 2, 'ws_styles': 4, 'empty_entries': True, 'trailing_comma': True},
